@@ -30,23 +30,29 @@ theorem sumIf_map (p : Row F → Bool) (f : Row F → F) (g : Row F → Row F) (
     sumIf p f (l.map g) = sumIf (fun r => p (g r)) (fun r => f (g r)) l := by
   rw [sumIf_def, sumIf_def, sumBy_map]
 
+theorem svar_def (f : α → F) (l : List α) :
+    svar f l = sumBy (fun x => (f x - lmean f l) * (f x - lmean f l)) l / (((l.length : Nat) : F) - ((1 : Nat) : F)) := rfl
+
+theorem aipwVar_def [LinearOrder F] [Transc F] (l : List (Row F)) (Q : Row F → Bool → F) (g1 g0 : Row F → F) :
+    aipwVar l Q g1 g0 = svar (fun r => aipwDiff Q g1 g0 r - aipwEst l Q g1 g0) l / ((l.length : Nat) : F) := rfl
+
 theorem lmean_perm {f : α → F} {l₁ l₂ : List α} (h : l₁.Perm l₂) : lmean f l₁ = lmean f l₂ := by
   unfold lmean; rw [sumBy_perm h, h.length_eq]
 
 theorem svar_perm {f : α → F} {l₁ l₂ : List α} (h : l₁.Perm l₂) : svar f l₁ = svar f l₂ := by
-  unfold svar; rw [lmean_perm h, sumBy_perm h, h.length_eq]
+  rw [svar_def, svar_def, lmean_perm h, sumBy_perm h, h.length_eq]
 
 theorem lmean_map (f : β → F) (g : α → β) (l : List α) : lmean f (l.map g) = lmean (fun x => f (g x)) l := by
   unfold lmean; rw [sumBy_map, List.length_map]
 
 theorem svar_map (f : β → F) (g : α → β) (l : List α) : svar f (l.map g) = svar (fun x => f (g x)) l := by
-  unfold svar; rw [lmean_map, sumBy_map, List.length_map]
+  rw [svar_def, svar_def, lmean_map, sumBy_map, List.length_map]
 
 theorem lmean_congr {f g : α → F} {l : List α} (h : ∀ x ∈ l, f x = g x) : lmean f l = lmean g l := by
   unfold lmean; rw [sumBy_congr h]
 
 theorem svar_congr {f g : α → F} {l : List α} (h : ∀ x ∈ l, f x = g x) : svar f l = svar g l := by
-  unfold svar; rw [lmean_congr h]
+  rw [svar_def, svar_def, lmean_congr h]
   congr 1
   apply sumBy_congr; intro x hx; rw [h x hx]
 
@@ -55,8 +61,7 @@ theorem svar_mul_left (c : F) (f : α → F) (l : List α) :
     svar (fun x => c * f x) l = c * c * svar f l := by
   have hm : lmean (fun x => c * f x) l = c * lmean f l := by
     unfold lmean; rw [sumBy_mul_left, mul_div_assoc]
-  unfold svar
-  rw [hm, ← mul_div_assoc, ← sumBy_mul_left]
+  rw [svar_def, svar_def, hm, ← mul_div_assoc, ← sumBy_mul_left]
   congr 1
   apply sumBy_congr; intro x _; ring
 
